@@ -175,11 +175,12 @@ def run(ctx):
     s1 = suite(ctx, "promela-random", gen(rng, 150 if quick else 5000))
     s2 = suite(ctx, "promela-history-revisit", E.history_revisit_selfdriven(rng, 40 if quick else 1200))
     s3 = suite(ctx, "promela-parallel-done", E.selfdriven(E.parallel_done_cases(rng, 30 if quick else 1000)))
-    ctx.coverage["evaluations"] = s1["inputs"] + s2["inputs"] + s3["inputs"]
+    s4 = suite(ctx, "promela-nested-if", [d for d, _ in E.nested_if_cases(rng, 40 if quick else 1500, NV)])
+    ctx.coverage["evaluations"] = s1["inputs"] + s2["inputs"] + s3["inputs"] + s4["inputs"]
     ctx.coverage["distinct_nontrivial"] = s1["agree"]
     ctx.coverage["rule"] = ("random charts of 3-8 states with the promela datamodel (two integer variables; parallel, history, finals, internal/targetless/multi-target/eventless transitions; "
                             "raise/send to self/assign/if/log in every kind of block; conditions on variables and configuration), interpreted without outside events: the chart's own sends are the external events; "
-                            "plus the history-revisit family (a compound state with shallow/deep history left and re-entered through the history 2-4 times with a different child active each time, the event history sent by a boot state) and the parallel-done family (regions with or without history children all reach their finals); "
+                            "plus the history-revisit family (a compound state with shallow/deep history left and re-entered through the history 2-4 times with a different child active each time, the event history sent by a boot state) the parallel-done family (regions with or without history children all reach their finals) and executable content with <if>/<elseif>/<else> nested three deep; "
                             "non-trivial = models whose whole simulation agrees with the interpreter")
     ctx.assumptions += ["spin's simulator executes the model faithfully; one simulation run suffices because the emitted model has one process and no nondeterministic choice in the compared fragment",
                         "nested machines, delayed sends and LTL verification (pan) are outside the compared fragment",
